@@ -90,8 +90,13 @@ def search(rep: C.Report, tier: str, broken):
         fams.append(("twostep:abrok=0.3,asym=0.05,musq=0.5,Tn=0.6", _models.twostep_eos(abrok=0.3, asym=0.05, musq=0.5, Tn=0.6)))
     for name, th in fams:
         try:
-            # scaled-unit families with the looser absolute tolerance the package's own tests use (1e-6)
-            h = HC.make_hydro(th, atol=1e-6) if "temperatures x" in name else HC.make_hydro(th)
+            # scaled-unit families with the looser absolute tolerance the package's own tests use (1e-6); `atol` is an ABSOLUTE tolerance on
+            # temperatures too, so in units where the temperatures are small it is scaled down with them (1e-6 on T = 6e-4 is a 2e-3 tolerance
+            # and the answers are correspondingly rough -- that is the setting, not a defect)
+            if "temperatures x" in name:
+                h = HC.make_hydro(th, atol=1e-6 * min(1.0, float(getattr(th, "s", 1.0))))
+            else:
+                h = HC.make_hydro(th)
         except Exception:  # noqa: BLE001
             continue
         Tn = h.Tnucl
